@@ -20,9 +20,10 @@ IR_RUNS = {
     "C02": {"quick": [("MC", "mirror", 1), ("MC", "mirror_add", 2), ("MC", "conn", 2), ("MC", "clone_closed", 1), ("SUITE", "tests", 0)],
             "thorough": [("MC", "mirror", 2), ("MC", "mirror_add", 3), ("MC", "conn", 3), ("MC", "clone_closed", 2), ("SUITE", "tests", 0)]},
     "C14": {"quick": [("MC", "conn", 2), ("MC", "mirror", 1), ("MC", "mirror_add", 2), ("MC", "naming", 2),
-                      ("MC", "naming_edif", 2), ("MC", "naming_two", 1), ("MC", "body", 2)],
+                      ("MC", "naming_edif", 2), ("MC", "naming_two", 1), ("MC", "body", 2), ("MC", "naming_adopt", 2)],
             "thorough": [("MC", "conn", 3), ("MC", "mirror", 2), ("MC", "mirror_add", 3), ("MC", "body", 3), ("MC", "contain", 4),
-                         ("MC", "naming", 3), ("MC", "naming_edif", 3), ("MC", "naming_mix", 3), ("MC", "naming_two", 2)]},
+                         ("MC", "naming", 3), ("MC", "naming_edif", 3), ("MC", "naming_mix", 3), ("MC", "naming_two", 2),
+                         ("MC", "naming_adopt", 3), ("MC", "naming_adopt2", 3)]},
     "C19": {"quick": [("MC", "conn", 2), ("MC", "mirror", 1), ("MC", "mirror_add", 2), ("MC", "contain", 2),
                       ("MC", "naming", 1), ("MC", "body", 2)],
             "thorough": [("MC", "conn", 3), ("MC", "mirror", 2), ("MC", "mirror_add", 3), ("MC", "contain", 3),
@@ -44,8 +45,8 @@ IR_RUNS.update({
             "thorough": [("MC", "vlog_rt", 3), ("MC", "vlog_rt", 12, 300), ("MC", "vlog_decl", 0), ("MC", "vlog_unused", 0), ("MC", "vlog_assign", 3), ("MC", "vlog_alias", 4), ("FILES", "vlog_rt", 30000)]},
     "C15": {"quick": [("MC", "c15_edif", 0), ("MC", "c15_vlog", 0), ("MC", "c15_eblif", 0)],
             "thorough": [("MC", "c15_edif", 0), ("MC", "c15_vlog", 0), ("MC", "c15_eblif", 0)]},
-    "C16": {"quick": [("MC", "c16_edif_arr", 0), ("MC", "c16_eblif_noname", 1), ("MC", "c16_edif", 2), ("MC", "c16_edif3", 2), ("MC", "c16_vlog", 1), ("MC", "c16_eblif", 2)],
-            "thorough": [("MC", "c16_edif_arr", 0), ("MC", "c16_eblif_noname", 2), ("MC", "c16_edif", 3), ("MC", "c16_vlog", 2), ("MC", "c16_eblif", 3), ("MC", "c16_edif", 12, 300)]},
+    "C16": {"quick": [("MC", "c16_edif_arr", 0), ("MC", "c16_eblif_noname", 1), ("MC", "c16_eblif_nolib", 1), ("MC", "c16_edif", 2), ("MC", "c16_edif3", 2), ("MC", "c16_vlog", 1), ("MC", "c16_eblif", 2)],
+            "thorough": [("MC", "c16_edif_arr", 0), ("MC", "c16_eblif_noname", 2), ("MC", "c16_eblif_nolib", 2), ("MC", "c16_edif", 3), ("MC", "c16_vlog", 2), ("MC", "c16_eblif", 3), ("MC", "c16_edif", 12, 300)]},
     "C18": {"quick": [("MC", "eblif_read", 3), ("MC", "eblif_rt", 2), ("MC", "eblif_latch", 2), ("MC", "eblif_latch_rt", 3), ("MC", "eblif_names", 2),
                       ("MC", "eblif_read", 10, 14), ("FILES", "eblif_file", 9000), ("FILES", "eblif_rt", 9000)],
             "thorough": [("MC", "eblif_read", 4), ("MC", "eblif_rt", 3), ("MC", "eblif_latch", 4), ("MC", "eblif_latch_rt", 4), ("MC", "eblif_names", 3),
@@ -62,8 +63,8 @@ IR_RUNS.update({
             "thorough": [("MC", "xf", 5), ("MC", "xf_port", 11), ("MC", "xf", 14, 1500), ("MC", "xf_late_port", 4), ("MC", "xf_late", 14, 600), ("MC", "xf_port2", 14, 600), ("MC", "xf4", 4), ("MC", "xf_noport", 4), ("MC", "xf_unnamed", 3)]},
     "C09": {"quick": [("MC", "xf", 2), ("MC", "xf_port", 6), ("MC", "xf", 12, 30), ("MC", "xf_noport", 2), ("MC", "xf_edif", 0)],
             "thorough": [("MC", "xf", 5), ("MC", "xf_port", 11), ("MC", "xf", 14, 1500), ("MC", "xf_late", 14, 600), ("MC", "xf_noport", 4), ("MC", "xf_edif", 0)]},
-    "C12": {"quick": [("MC", "hier12", 3), ("MC", "hier12", 12, 60), ("MC", "hier12_pos", 12, 60), ("MC", "hier12_ft", 3), ("MC", "hier12_pt", 3), ("MC", "hier_deep", 0), ("MC", "hier12_walk", 10, 30)],
-            "thorough": [("MC", "hier12", 5), ("MC", "hier12", 14, 1000), ("MC", "hier12_pos", 4), ("MC", "hier12_pos", 14, 1000), ("MC", "hier12_ft", 5), ("MC", "hier12_pt", 5), ("MC", "hier_deep", 0), ("MC", "hier12_walk", 14, 400)]},
+    "C12": {"quick": [("MC", "hier12", 3), ("MC", "hier12", 12, 60), ("MC", "hier12_pos", 12, 60), ("MC", "hier12_ft", 3), ("MC", "hier12_pt", 3), ("MC", "hier12_topm", 1), ("MC", "hier_deep", 0), ("MC", "hier12_walk", 10, 30)],
+            "thorough": [("MC", "hier12", 5), ("MC", "hier12", 14, 1000), ("MC", "hier12_pos", 4), ("MC", "hier12_pos", 14, 1000), ("MC", "hier12_ft", 5), ("MC", "hier12_pt", 5), ("MC", "hier12_topm", 3), ("MC", "hier_deep", 0), ("MC", "hier12_walk", 14, 400)]},
 })
 IR_RULE = {
     "C15": "for one design per format the valid rendering and EVERY single corruption of it (truncation before each token, "
